@@ -600,15 +600,22 @@ impl RelayServiceWithNotify {
             RelayUpgradeReqError::UnsupportedWebsocketVersion
         );
 
-        let subprotocols = expect_header(&req, SEC_WEBSOCKET_PROTOCOL)?
-            .to_str()
-            .ok()
+        expect_header(&req, SEC_WEBSOCKET_PROTOCOL)?;
+        // The header may appear several times, which is the same as a single header
+        // containing all values (RFC 6455, section 11.3.4).
+        let subprotocols = req
+            .headers()
+            .get_all(SEC_WEBSOCKET_PROTOCOL)
+            .iter()
+            .map(|value| value.to_str().ok())
+            .collect::<Option<Vec<_>>>()
             .ok_or_else(|| {
                 e!(RelayUpgradeReqError::InvalidHeader {
                     header: SEC_WEBSOCKET_PROTOCOL,
                     details: "header value is not ascii".to_string()
                 })
-            })?;
+            })?
+            .join(",");
         let protocol_version = subprotocols
             .split(",")
             .map(|s| s.trim())
